@@ -174,13 +174,20 @@ func C14(r *eng.Run) {
 
 	t0 = time.Now()
 	maxz := 120
-	r.Bounds["max_trailing_zeros"] = maxz
+	r.Bounds["max_trailing_zeros"] = "every z to 120, plus {150,200,240,241,300,500,1000,2407,2500}"
 	r.Par(len(shapes), func(w *eng.W, i int) {
 		K := shapes[i]
+		zs := []int{}
 		for z := 0; z <= maxz; z++ {
-			if !r.Thorough() && z > 45 && z%5 != 0 {
-				continue
+			if r.Thorough() || z <= 45 || z%5 == 0 {
+				zs = append(zs, z)
 			}
+		}
+		// coefficients of several hundred to a thousand bytes (mostly trailing zeros), for a subset of shapes
+		if i%8 == 0 || r.Thorough() {
+			zs = append(zs, 150, 200, 240, 241, 300, 500, 1000, 2407, 2500)
+		}
+		for _, z := range zs {
 			c := new(big.Int).Mul(K, ref.Pow10(z))
 			cb := c.Bytes()
 			cell := "big"
